@@ -893,11 +893,13 @@ func cgGenStructDoc(t *rapid.T, rt reflect.Type, l string, minFields, maxFields 
 
 // cgDocOpts sizes cgGenConfDoc.
 type cgDocOpts struct {
-	MaxGlobal   int  // global parameters per document
-	MaxPerPath  int  // parameters per path / pathDefaults
-	MaxPaths    int  // entries in paths
-	LowerKeys   bool // path keys restricted to those the environment syntax can address (lower case, no '_')
-	NoNullPaths bool // never emit "name:" with an empty body
+	MaxGlobal   int      // global parameters per document
+	MaxPerPath  int      // parameters per path / pathDefaults
+	MaxPaths    int      // entries in paths
+	LowerKeys   bool     // path keys restricted to those the environment syntax can address (lower case, no '_')
+	NoNullPaths bool     // never emit "name:" with an empty body
+	FavorGlobal []string // global parameters added with probability 1/3 each on top of the uniform choice
+	FavorPath   []string // same for every path entry (only parameters that are valid in any kind of path)
 }
 
 var cgEnvSafeRegexKeys = []string{`~^cam(\d+)$`, `~^live/(.+)$`, `~^(.*)$`, `~^[a-z]+/x$`, `~^.*$`}
@@ -926,10 +928,27 @@ func cgGenPathKeyFor(t *rapid.T, o cgDocOpts, l string) string {
 	}
 }
 
+// cgAddFavored adds the named parameters of rt to body with probability 1/3 each (type-directed values).
+func cgAddFavored(t *rapid.T, body map[string]any, rt reflect.Type, names []string, l string) {
+	for _, n := range names {
+		if _, has := body[n]; has || rapid.IntRange(0, 2).Draw(t, l+".favor."+n) != 0 {
+			continue
+		}
+		f, ok := cgFieldByJSON(rt, n)
+		if !ok {
+			continue
+		}
+		if v, ok2 := cgGenValue(t, f.Type, n, l+"."+n); ok2 {
+			body[n] = v
+		}
+	}
+}
+
 // cgGenPathEntity generates the body of one path entry that Path.validate accepts.
 func cgGenPathEntity(t *rapid.T, key string, o cgDocOpts, l string) map[string]any {
 	isRegex := key == "all" || key == "all_others" || strings.HasPrefix(key, "~")
 	body, _ := cgGenStructDoc(t, reflect.TypeOf(Path{}), l, 0, o.MaxPerPath, cgPathRoleFields)
+	cgAddFavored(t, body, reflect.TypeOf(Path{}), o.FavorPath, l)
 	role := rapid.SampledFrom([]string{"publisher", "publisher", "static", "redirect", "always", "hooks"}).Draw(t, l+".role")
 	switch role {
 	case "static":
@@ -993,6 +1012,8 @@ func cgGenPathEntity(t *rapid.T, key string, o cgDocOpts, l string) map[string]a
 // added later are generated too.
 func cgGenConfDoc(t *rapid.T, o cgDocOpts) map[string]any {
 	doc, _ := cgGenStructDoc(t, reflect.TypeOf(Conf{}), "g", 0, o.MaxGlobal, map[string]bool{"pathDefaults": true, "paths": true})
+
+	cgAddFavored(t, doc, reflect.TypeOf(Conf{}), o.FavorGlobal, "g")
 
 	if rapid.Bool().Draw(t, "haspd") {
 		excl := map[string]bool{}
